@@ -13,7 +13,13 @@ for d in seeded/*/; do
   [ -f $d/meta.json ] || continue
   prop=$(python3 -c "import json;print(json.load(open('$d/meta.json'))['property'])")
   neutral=$(python3 -c "import json;print('neutralised' in json.load(open('$d/meta.json')))")
-  git -C $REPO apply $VERIF_DIR/$d/patch.diff 2>/dev/null || { echo "$id: patch does not apply" >&2; continue; }
+  if ! git -C $REPO apply $VERIF_DIR/$d/patch.diff 2>/dev/null; then
+    echo "$id: patch does not apply (neutralised=$neutral)" >&2
+    [ $first = 1 ] || echo "," >> $out.tmp
+    first=0
+    echo " {\"seed\": \"$id\", \"property\": \"$prop\", \"check_exit\": null, \"violations\": 0, \"clauses\": \"patch no longer applies\", \"neutralised\": \"$neutral\"}" >> $out.tmp
+    continue
+  fi
   ( cd $REPO && go build ./... >/dev/null 2>&1 ) || { echo "$id: does not build" >&2; git -C $REPO checkout -q -- .; continue; }
   log=$(VERIF_SEED=1 bin/check $prop --tier quick 2>&1); rc=$?
   git -C $REPO checkout -q -- .
